@@ -149,7 +149,23 @@ func sortStrings(a []string) {
 func runC06(c *Ctx) {
 	m, r := c.M, c.R
 	c.St.Rule = "programs of object operations over a heap of objects/lists with keys from a pool (empty, '.', '#', quotes, non-ASCII, repeated within one Set); non-trivial = at least 3 operations; distinct by program"
+	c.nilArguments()
 	c.rawBytes("C06")
+	// queries with Go values that no stored element can be identical to: a value of another numeric Go type is not
+	// the int / float64 the container holds (Contains false, KeyOf panics), whatever its numeric value
+	m.Case("foreign-queries")
+	{
+		o := m.NewObject(gvStr("i"), gvInt(1), gvStr("f"), gvFloat(0.5), gvStr("z"), gvInt(0), gvStr("n"), gvNil(), gvStr("s"), gvStr("1"))
+		l := m.NewList(gvInt(1), gvFloat(0.5), gvInt(0), gvNil(), gvStr("1"))
+		qs := []*GV{{K: 'w', W: "i64", I: 1}, {K: 'w', W: "i8", I: 1}, {K: 'w', W: "u8", U: 1}, {K: 'w', W: "u", U: 0}, {K: 'w', W: "i32", I: 0},
+			{K: 'g', F32: 0.5}, gvFloat(1), gvInt(1), gvFloat(0.5), gvStr("1"), gvNil(), gvBool(false), gvUnsupported(0)}
+		for _, q := range qs {
+			m.OContains(o, q)
+			m.KeyOf(o, q)
+			m.Contains(l, q)
+			m.IndexOf(l, q)
+		}
+	}
 	// exhaustive: every sequence of k operations from a menu over two objects sharing a nested list
 	type op func(o1, o2, l string)
 	menu := []op{
@@ -617,6 +633,7 @@ func (c *Ctx) deepChains() {
 func runC09(c *Ctx) {
 	m, r := c.M, c.R
 	c.St.Rule = "receivers in every growth history x every deriving operation applied twice x every mutator applied to receiver, argument and both results in turn, all containers snapshotted after each step; non-trivial always (>= 6 operations); distinct by (history, deriving op, mutator)"
+	c.nilArguments()
 	c.rawBytes("C09")
 	c.emptyReceivers()
 	c.omoList("C09")
@@ -987,6 +1004,53 @@ func runC13(c *Ctx) {
 		holder := m.NewList(gl, gm)
 		m.NativeSlice(holder)
 	}
+	// typed flavours whose element type is a container interface, with nil members (stored as nil), at the top and nested
+	m.Case("native-typed-flavours")
+	{
+		in1 := m.NewList(gvInt(1))
+		o1 := m.NewObject(gvStr("k"), gvInt(1))
+		e1 := m.NewObject()
+		for _, g := range []*GV{
+			{K: '(', Fl: 'l', Xs: []*GV{m.RefGV(in1), gvNil()}},
+			{K: '(', Fl: 'o', Xs: []*GV{gvNil(), m.RefGV(o1), m.RefGV(e1)}},
+			{K: '(', Fl: 'a', Xs: []*GV{{K: '(', Fl: 'l', Xs: []*GV{gvNil()}}, {K: '<', Fl: 'o', Xs: []*GV{gvNil(), m.RefGV(o1)}, Keys: []string{"n", "o"}}}},
+		} {
+			if l := m.NewListFrom(g); l != "" {
+				m.NativeSlice(l)
+				m.Slice(l)
+			}
+		}
+		for _, g := range []*GV{
+			{K: '<', Fl: 'l', Xs: []*GV{m.RefGV(in1), gvNil()}, Keys: []string{"a", "b"}},
+			{K: '<', Fl: 'o', Xs: []*GV{gvNil(), m.RefGV(o1), m.RefGV(e1)}, Keys: []string{"a", "b", "c"}},
+			{K: '<', Fl: 'a', Xs: []*GV{{K: '(', Fl: 'o', Xs: []*GV{gvNil()}}, {K: '<', Fl: 'l', Xs: []*GV{gvNil()}, Keys: []string{"n"}}}, Keys: []string{"x", "y"}},
+		} {
+			if o := m.NewObjectFrom(g); o != "" {
+				m.NativeDict(o)
+				m.Dict(o)
+			}
+		}
+		// an exported empty map / slice is private to the export: writing into one never shows in another export
+		holder := m.NewObject(gvStr("e"), m.RefGV(e1), gvStr("l"), m.RefGV(m.NewList()))
+		x1 := m.O(holder).NativeDict()
+		if em, ok := x1["e"].(map[string]any); ok {
+			em["leak"] = 1
+		}
+		if es, ok := x1["l"].([]any); ok {
+			_ = append(es, 1)
+		}
+		m.NativeDict(holder)
+		m.NativeDict(e1)
+		other := m.NewObject(gvStr("z"), m.RefGV(m.NewObject()))
+		m.NativeDict(other)
+		lst := m.NewList(m.RefGV(m.NewObject()), m.RefGV(m.NewList()))
+		y1 := m.L(lst).NativeSlice()
+		if em, ok := y1[0].(map[string]any); ok {
+			em["leak"] = 2
+		}
+		m.NativeSlice(lst)
+		m.NativeSlice(m.NewList(m.RefGV(m.NewObject())))
+	}
 	opts := &TreeOpts{MaxDepth: 5, MaxWidth: 5}
 	for i := 0; i < c.N(500, 8000); i++ {
 		m.Case("native")
@@ -1144,6 +1208,33 @@ func runC14(c *Ctx) {
 	c.omoObj("C14")
 	c.longLists("C14")
 	c.derivedCorners("C14")
+	// a callback whose result cannot be stored: every Map variant panics (nothing is silently left out), the source stays
+	m.Case("unstorable-results")
+	{
+		src := m.NewList(gvInt(1), gvStr("s"), gvFloat(1.5), gvBool(true), m.RefGV(m.NewList()), m.RefGV(m.NewObject()), gvNil(), gvInt(2))
+		so := m.NewObject(gvStr("i"), gvInt(1), gvStr("s"), gvStr("s"), gvStr("f"), gvFloat(1.5), gvStr("b"), gvBool(true), gvStr("l"), m.RefGV(m.NewList()), gvStr("o"), m.RefGV(m.NewObject()), gvStr("n"), gvNil())
+		for _, bad := range []*GV{gvUnsupported(0), gvUnsupported(5)} {
+			f := &Fn{Name: "const", Const: bad}
+			m.Map(src, f)
+			m.MapValues(src, f)
+			m.OMap(so, f)
+			m.OMapValues(so, f)
+			for _, k := range []byte("olsbif") {
+				m.MapK(src, k, f)
+				m.OMapK(so, k, f)
+			}
+		}
+		// storable results of every kind, also another kind than the element's
+		for _, good := range []*GV{gvNil(), gvStr(""), gvFloat(0.5), m.RefGV(m.NewList(gvInt(9))), {K: '(', Fl: 'i', Xs: []*GV{gvInt(1)}}, {K: 'w', W: "u8", U: 7}} {
+			f := &Fn{Name: "const", Const: good}
+			m.Map(src, f)
+			m.OMap(so, f)
+			for _, k := range []byte("olsbif") {
+				m.MapK(src, k, f)
+				m.OMapK(so, k, f)
+			}
+		}
+	}
 	fns := []*Fn{{Name: "id"}, {Name: "inc"}, {Name: "tostr"}, {Name: "idx"}, {Name: "const", Const: gvStr("c")}}
 	preds := []string{"all", "none", "par"}
 	for i := 0; i < c.N(250, 4000); i++ {
@@ -1431,6 +1522,7 @@ func runC19(c *Ctx) {
 	}
 	c.fluentStates()
 	c.derivedCorners("C19")
+	c.overriding("C19")
 	c.longLists("C19")
 	for lvl := 1; lvl <= 2; lvl++ {
 		for rep := 0; rep < c.N(3, 30); rep++ {
@@ -1464,6 +1556,8 @@ func runC19(c *Ctx) {
 				m.SetTF(t, "#5#1.k", gvInt(9))
 				m.UnsetTF(t, "#0")
 				m.Clear(t)
+				m.Sort(t)    // an empty list cannot be sorted (run-time panic): in particular nothing else is returned
+				m.Reverse(t) // Reverse of the empty list is fluent
 				m.Insert(t, 0, gvInt(1)) // Insert into the empty list is the append boundary too
 				m.Add(t, gvInt(1), gvInt(2))
 			}
@@ -1489,6 +1583,17 @@ func runC19(c *Ctx) {
 				m.OSet(t, gvStr("a"), gvInt(1))
 			}
 			// storage: derived values stored in other containers come back identical
+			// a derived value repeated by NewListOf: every slot holds the identical outer value
+			for _, dv := range []string{d, dO} {
+				rep := m.NewListOf(m.RefGV(dv), 3)
+				if rep != "" {
+					for i := 0; i < 3; i++ {
+						m.Get(rep, i)
+					}
+					m.Slice(rep)
+					m.IndexOf(rep, m.RefGV(dv))
+				}
+			}
 			holder := m.NewList(m.RefGV(d), m.RefGV(dO), gvInt(0), m.RefGV(raw))
 			holderO := m.NewObject(gvStr("l"), m.RefGV(d), gvStr("o"), m.RefGV(dO), gvStr("r"), m.RefGV(rawO))
 			m.Get(holder, 0)
